@@ -83,17 +83,25 @@ def parseFiles (fs : FS) (root : Path) : Except Err (List Name) :=
 
 /-! ### exit status of `main()` -/
 
-/-- what happened after parsing, as far as the exit status is concerned. `D` is the descriptor type. -/
+/-- what happened after parsing, as far as the exit status is concerned. `D` is the descriptor type. The fields are
+    the steps of `main()` in the order in which it performs them. -/
 structure Stages (D : Type) where
-  /-- `_validate(..., PRE_EXPANSION)` found no errors -/
+  /-- `_validate(raw_type_descriptors, PRE EXPANSION)` found no errors. It is run on what the parser returned: no
+      attribute has been applied yet (an attribute the member type does not have is reported here) -/
   validatePre : List D → Bool
-  /-- `apply_attributes`, `expand_named_inlines`, `expand_unnamed_inlines`; `none` = an exception escaped -/
-  expand : List D → Option (List D)
+  /-- `processor.apply_attributes()`, after the first validation pass; `none` = an exception escaped -/
+  applyAttributes : List D → Option (List D)
+  /-- `expand_named_inlines`, `expand_unnamed_inlines` on the attribute-applied declarations; `none` = an exception escaped -/
+  expandInlines : List D → Option (List D)
   /-- `_validate(..., POST_EXPANSION)` found no errors -/
   validatePost : List D → Bool
   /-- dumping / `generator_class.generate` / writing the output file went through (vacuously `true` when
       nothing was requested) -/
   generate : List D → Bool
+
+/-- `apply_attributes`, `expand_named_inlines`, `expand_unnamed_inlines`, in this order -/
+def Stages.expand {D : Type} (st : Stages D) (ds : List D) : Option (List D) :=
+  (st.applyAttributes ds).bind st.expandInlines
 
 /-- `main()`: `sys.exit(1)` for `AstException`/`OSError` out of the parse (and status 1 from the interpreter
     for any other escaping exception), `sys.exit(2)` from `_validate`, 0 at the end. -/
